@@ -17,24 +17,25 @@ import (
 )
 
 type Prog struct {
-	repo       string
-	fset       *token.FileSet
-	prog       *ssa.Program
-	pkgs       []*ssa.Package
-	ppkgs      []*packages.Package
-	contracts  *ContractSet
-	loopCache  map[*ssa.Function]*LoopInfo
-	globals    map[*ssa.Global]int
-	funcIDs    map[*ssa.Function]int
-	implCache  map[string][]types.Type
-	allNamed   []types.Type
-	byKey      map[string]*ssa.Function
-	boxedPtr   []types.Type
-	curProp    string
-	dynCache   map[*ssa.Function]bool
-	dynSet     map[*ssa.Function]bool
-	writers    map[string][]*ssa.Function
-	reachCache map[*ssa.Function]map[*ssa.Function]bool
+	repo          string
+	fset          *token.FileSet
+	prog          *ssa.Program
+	pkgs          []*ssa.Package
+	ppkgs         []*packages.Package
+	contracts     *ContractSet
+	loopCache     map[*ssa.Function]*LoopInfo
+	globals       map[*ssa.Global]int
+	funcIDs       map[*ssa.Function]int
+	implCache     map[string][]types.Type
+	allNamed      []types.Type
+	byKey         map[string]*ssa.Function
+	boxedPtr      []types.Type
+	curProp       string
+	usedContracts map[string]bool // verified contracts (with a body) applied at call sites during this run
+	dynCache      map[*ssa.Function]bool
+	dynSet        map[*ssa.Function]bool
+	writers       map[string][]*ssa.Function
+	reachCache    map[*ssa.Function]map[*ssa.Function]bool
 }
 
 func mathFloat64bits(f float64) uint64 { return math.Float64bits(f) }
